@@ -2927,6 +2927,32 @@ def r_attach(E):
         "replace_in_mod_obj_container_without_recomputation", "set_modeling_obj_container") else None), rounds=2, max_body=40)
     res.instances += 1
     newp = f.args.args[1].arg if len(f.args.args) > 1 else "new_value"
+    # a check of the class asked of the *new* value (`new_value.check_not_linked_elsewhere(container)`) reads as its body
+    # with the new value in place of self
+    from ..astutil import helper_view as _hv_r2, substitute_stmt as _ss_r2, set_parents as _sp_r2
+
+    def _splice_checks(stmts):
+        out_ = []
+        for st_ in stmts:
+            for fld_ in ("body", "orelse", "finalbody"):
+                sub_ = getattr(st_, fld_, None)
+                if isinstance(sub_, list) and sub_ and isinstance(sub_[0], ast.stmt):
+                    setattr(st_, fld_, _splice_checks(sub_))
+            c_ = st_.value if isinstance(st_, ast.Expr) and isinstance(st_.value, ast.Call) else None
+            if c_ is not None and isinstance(c_.func, ast.Attribute) and isinstance(c_.func.value, ast.Name) \
+                    and c_.func.value.id == newp and c_.func.attr != "set_modeling_obj_container":
+                h_ = pm.find_method("ObjectLinkedToModelingObj", c_.func.attr)[1]
+                if h_ is not None and h_.args.args and not any(isinstance(x, ast.Return) and x.value is not None for x in ast.walk(h_)) \
+                        and len(h_.body) <= 12:
+                    hv_ = _hv_r2(h_, c_)
+                    me_ = h_.args.args[0].arg
+                    out_ += [_ss_r2(b_, {me_: ast.Name(id=newp, ctx=ast.Load())}) for b_ in hv_.body
+                             if not (isinstance(b_, ast.Expr) and isinstance(b_.value, ast.Constant))]
+                    continue
+            out_.append(st_)
+        return out_
+    f.body = _splice_checks(f.body)
+    _sp_r2(f)
     rank = _so(f)
 
     def is_mutation(n):
